@@ -487,6 +487,11 @@ func ruleHeapDirection(c *Ctx, r *R) {
 						if strings.Contains(y, "parent(") && ((x == a1 && y == a2) || (x == a2 && y == a1)) && !strings.Contains(x, "parent(") {
 							good = true
 						}
+						// p carried by the loop (for p := parent(i); i > 0; i, p = p, parent(p)): p is the parent of i by induction
+						// over the loop's edges
+						if heapRelOf(argOf(yv, d.calls), argOf(xv, d.calls), "parent", -1) && ((x == a1 && y == a2) || (x == a2 && y == a1)) {
+							good = true
+						}
 					}
 				}
 			}
@@ -498,6 +503,10 @@ func ruleHeapDirection(c *Ctx, r *R) {
 			if phi, ok := in.(*ssa.Phi); ok {
 				for _, e := range phi.Edges {
 					if strings.Contains(path(e), "parent(") {
+						cont = true
+					}
+					// i, p = p, parent(p): i continues at p, which is its parent
+					if pp, ok := e.(*ssa.Phi); ok && pp.Block() == phi.Block() && heapRelOf(pp, phi, "parent", -1) {
 						cont = true
 					}
 				}
@@ -577,19 +586,33 @@ func ruleHeapDirection(c *Ctx, r *R) {
 		// least = right only under less(right, left): wherever the right child (children()#1) is selected - as an incoming
 		// value of a merge or as a helper's result - that selection sits under less(right, left)
 		okLeast := false
-		isRight := func(v ssa.Value) bool {
+		var isChild func(v ssa.Value, idx int) bool
+		isChild = func(v ssa.Value, idx int) bool {
+			if phi, ok := resolveVal(v).(*ssa.Phi); ok && len(phi.Edges) > 0 {
+				// carried by the loop: for left, right := children(i); ...; left, right = children(i)
+				for _, e := range phi.Edges {
+					if e == ssa.Value(phi) {
+						continue
+					}
+					if _, nested := resolveVal(e).(*ssa.Phi); nested || !isChild(e, idx) {
+						return false
+					}
+				}
+				return true
+			}
 			ex, ok := resolveVal(v).(*ssa.Extract)
-			if !ok || ex.Index != 1 {
+			if !ok || ex.Index != idx {
 				return false
 			}
 			call, ok := ex.Tuple.(*ssa.Call)
 			return ok && staticCallee(&call.Call) != nil && fname(staticCallee(&call.Call)) == "children"
 		}
+		isRight := func(v ssa.Value) bool { return isChild(v, 1) }
 		lessRightLeft := func(gs []guard) bool {
 			for _, g := range gs {
 				for _, g2 := range expandGuard(g, 0) {
 					if v, val := g2.boolVal(); val {
-						if x, y, ok := heapLessIdx(v); ok && strings.Contains(path(x), "#1") && strings.Contains(path(y), "#0") {
+						if x, y, ok := heapLessIdx(v); ok && ((strings.Contains(path(x), "#1") && strings.Contains(path(y), "#0")) || (isChild(x, 1) && isChild(y, 0))) {
 							return true
 						}
 					}
@@ -602,6 +625,9 @@ func ruleHeapDirection(c *Ctx, r *R) {
 			instrs(fr.f, func(b *ssa.BasicBlock, i int, in ssa.Instruction) {
 				switch x := in.(type) {
 				case *ssa.Phi:
+					if isRight(x) {
+						return // the loop-carried right child itself, not a choice between the children
+					}
 					for k, e := range x.Edges {
 						if !isRight(e) {
 							continue
@@ -715,7 +741,7 @@ func rulePQMap(c *Ctx, r *R) {
 			ex, isEx := idx.(*ssa.Extract)
 			fromMap := false
 			if isEx {
-				if lk, ok := ex.Tuple.(*ssa.Lookup); ok && isPQKeyMap(lk.X) && lk.Index == ssa.Value(fn.Params[1]) {
+				if pqKeyLookup(ex.Tuple, fn.Params[1]) && ex.Index == 0 {
 					fromMap = true
 				}
 			}
@@ -774,7 +800,7 @@ func rulePQMap(c *Ctx, r *R) {
 		}
 		reads := false
 		instrs(fn, func(b *ssa.BasicBlock, i int, in ssa.Instruction) {
-			if lk, ok := in.(*ssa.Lookup); ok && isPQKeyMap(lk.X) && lk.Index == ssa.Value(fn.Params[1]) && lk.CommaOk {
+			if v, ok := in.(ssa.Value); ok && pqKeyLookup(v, fn.Params[1]) {
 				reads = true
 			}
 		})
@@ -1135,3 +1161,75 @@ var _ = late(func() {
 	properties["C04"].Rules = append(properties["C04"].Rules, &Rule{ID: "C04.copy-moves-items", Floor: 2, Clause: "every copy() in container/deque (resize) writes into a destination that has a length: a make([]T, 0, n) destination receives no items", Run: ruleCopyMovesItems("container/deque")})
 	properties["C19"].Rules = append(properties["C19"].Rules, &Rule{ID: "C19.copy-moves-items", Floor: 2, Clause: "every copy() in xslices writes into a destination that has a length (copy moves min(len(dst), len(src)) items)", Run: ruleCopyMovesItems("xslices")})
 })
+
+// heapRelOf: is v the parent (rel "parent") / the idx-th child (rel "children") of index value iv? Directly - v = parent(iv),
+// v = children(iv)#idx - or by induction over a loop: v and iv are phis of one block and on every incoming edge the value of v
+// is in that relation to the value of iv on the same edge.
+func heapRelOf(v, iv ssa.Value, rel string, idx int) bool {
+	direct := func(v, iv ssa.Value) bool {
+		x := resolveVal(v)
+		if ex, ok := x.(*ssa.Extract); ok {
+			if idx < 0 || ex.Index != idx {
+				return false
+			}
+			x = ex.Tuple
+		} else if idx >= 0 {
+			return false
+		}
+		call, ok := x.(*ssa.Call)
+		if !ok {
+			return false
+		}
+		cal := staticCallee(&call.Call)
+		return cal != nil && fname(cal) == rel && len(call.Call.Args) == 1 && resolveVal(call.Call.Args[0]) == resolveVal(iv)
+	}
+	if direct(v, iv) {
+		return true
+	}
+	pv, ok1 := resolveVal(v).(*ssa.Phi)
+	pi, ok2 := resolveVal(iv).(*ssa.Phi)
+	if !ok1 || !ok2 || pv.Block() != pi.Block() || len(pv.Edges) != len(pi.Edges) {
+		return false
+	}
+	for k := range pv.Edges {
+		if !direct(pv.Edges[k], pi.Edges[k]) {
+			return false
+		}
+	}
+	return true
+}
+
+// pqKeyLookup: tuple is the (index, present) pair recorded for key in the priority queue's key map: the comma-ok lookup m[key]
+// itself, or the result of an accessor of the queue (h.position(k)) whose only return hands back both components of such a
+// lookup of its own key parameter.
+func pqKeyLookup(tuple ssa.Value, key ssa.Value) bool {
+	if lk, ok := tuple.(*ssa.Lookup); ok {
+		return lk.CommaOk && isPQKeyMap(lk.X) && lk.Index == key
+	}
+	call, ok := tuple.(*ssa.Call)
+	if !ok {
+		return false
+	}
+	cal := staticCallee(&call.Call)
+	if cal == nil || cal.Blocks == nil || cal.Signature.Recv() == nil || len(call.Call.Args) != 2 || call.Call.Args[1] != key || len(cal.Params) != 2 {
+		return false
+	}
+	nRet, good := 0, true
+	instrs(cal, func(_ *ssa.BasicBlock, _ int, in ssa.Instruction) {
+		ret, ok := in.(*ssa.Return)
+		if !ok {
+			return
+		}
+		nRet++
+		if len(ret.Results) != 2 {
+			good = false
+			return
+		}
+		e0, ok0 := returnedValue(ret, 0).(*ssa.Extract)
+		e1, ok1 := returnedValue(ret, 1).(*ssa.Extract)
+		if !ok0 || !ok1 || e0.Tuple != e1.Tuple || e0.Index != 0 || e1.Index != 1 || !pqKeyLookup(e0.Tuple, cal.Params[1]) {
+			good = false
+		}
+	})
+	return nRet == 1 && good
+}
